@@ -5105,6 +5105,10 @@ class DfaCompileCtx:
             if len(transition.target.transitions) != 1 or DFTransition.Else not in transition.target.transitions[0].on_values:
                 continue
 
+            # Skipping past an accepting state would lose the DONE it reports
+            if transition.target in self.dfa.accepting_states:
+                continue
+
             to_replace = transition.target.transitions[0]
 
             if not to_replace.is_fallthrough:
